@@ -17,6 +17,8 @@ pub enum Step {
     TakeRef { of: u16, how: u8 },
     /// store filler events until the backing file has grown `times` times
     GrowBy { times: u8, content_len: u32 },
+    /// several threads store at the same time (thread 0 stores ephemeral kinds); writers only
+    ConcurrentStores { threads: u8, per_thread: u8 },
 }
 
 #[derive(Clone, Debug, Serialize, Deserialize)]
@@ -108,6 +110,7 @@ impl Prop for C15 {
             1 => content_len_strategy().prop_map(|content_len| Step::StoreOnThread { content_len }),
             4 => (any::<u16>(), 0u8..3).prop_map(|(of, how)| Step::TakeRef { of, how }),
             2 => (1u8..4, prop::sample::select(vec![200u32, 900, 3000])).prop_map(|(times, content_len)| Step::GrowBy { times, content_len }),
+            1 => (2u8..5, 8u8..40).prop_map(|(threads, per_thread)| Step::ConcurrentStores { threads, per_thread }),
         ];
         (prop::collection::vec(step, 1..25), prop::bool::weighted(0.8))
             .prop_map(|(steps, force_move)| Case { steps, force_move })
@@ -126,6 +129,7 @@ impl Prop for C15 {
             }
         };
         let mut held: Vec<Held> = Vec::new();
+        let mut moved: Option<String> = None;
         let mut stored: Vec<(u64, usize)> = Vec::new(); // (offset, event index)
         let mut blockers: Vec<Blocker> = Vec::new();
         let mut seq = 0u64;
@@ -239,6 +243,72 @@ impl Prop for C15 {
                         }
                     }
                 }
+                Step::ConcurrentStores { threads, per_thread } => {
+                    out.label("concurrent-stores");
+                    let mut batches: Vec<Vec<usize>> = Vec::new();
+                    for t in 0..*threads {
+                        let mut b = Vec::new();
+                        for k in 0..*per_thread {
+                            let ge = GenEvent {
+                                author: t % 4,
+                                kind: if t == 0 { 20000 + (k as u16 % 3) } else { 1 },
+                                created_at: 300 + k as u64,
+                                tags: vec![vec!["t".to_string(), format!("c15-{stepno}-{t}-{k}")]],
+                                content_len: 40 + ((k as u32 * 53 + t as u32 * 17) % 500),
+                                idc: IdChoice::Hash,
+                            };
+                            b.push(w.intern(ge.to_model(), Some(&ge)));
+                        }
+                        batches.push(b);
+                    }
+                    let len_before = w.map_len();
+                    let results: Vec<Vec<(usize, Res)>> = {
+                        let st = w.st();
+                        let owned = &w.owned;
+                        std::thread::scope(|scope| {
+                            let hs: Vec<_> = batches
+                                .iter()
+                                .map(|b| {
+                                    scope.spawn(move || {
+                                        b.iter()
+                                            .map(|i| {
+                                                let r = match guard("Store::store_event", || st.store_event(&owned[*i])) {
+                                                    Ok(Ok(off)) => Res::Ok(off),
+                                                    Ok(Err(e)) => classify_err(&e),
+                                                    Err(f) => Res::Panic(f.key),
+                                                };
+                                                (*i, r)
+                                            })
+                                            .collect::<Vec<_>>()
+                                    })
+                                })
+                                .collect();
+                            hs.into_iter().map(|h| h.join().unwrap_or_default()).collect()
+                        })
+                    };
+                    let grown = ((w.map_len().saturating_sub(len_before)) / 2048) as usize;
+                    if grown > 0 {
+                        w.growths += grown.min(8);
+                        w.grew = true;
+                    }
+                    for (i, r) in results.into_iter().flatten() {
+                        match r {
+                            Res::Ok(off) => {
+                                let _ = w.offsets.insert(off, i);
+                                stored.push((off, i));
+                            }
+                            Res::Panic(k) => {
+                                out.fail(format!("C15:{k}"), "concurrent stores");
+                                return out;
+                            }
+                            Res::Other(e) if e.contains("Out of space") || e.contains("I/O") => {
+                                out.fail(format!("C15:concurrent-store-error:{e}"), "a store failed while other threads were storing");
+                                return out;
+                            }
+                            _ => {}
+                        }
+                    }
+                }
                 Step::TakeRef { of, how } => {
                     if stored.is_empty() {
                         continue;
@@ -299,8 +369,10 @@ impl Prop for C15 {
                 }
             }
             let _ = growths_before;
-            // oracle: every held reference still denotes the same bytes at the same address
-            for h in &held {
+            // oracle: every held reference still denotes the same bytes at the same address.
+            // A moved mapping (the open known finding) is remembered and reported at the end only, so that it
+            // cannot mask a changed byte later in the same sequence.
+            for h in held.iter_mut() {
                 let crossed = w.growths > h.growths_at_take;
                 if crossed {
                     out.nontrivial = true;
@@ -316,9 +388,8 @@ impl Prop for C15 {
                             return out;
                         }
                         if addr != h.addr {
-                            out.fail(
-                                "C15:mapping-moved-on-growth",
-                                format!(
+                            if moved.is_none() {
+                                moved = Some(format!(
                                     "step {stepno}: the event at offset {} was at {:#x} when the reference (how={}) was taken and is at {:#x} now ({} growth step(s) in between, {} forced): the old reference points into an unmapped region",
                                     h.offset,
                                     h.addr,
@@ -326,9 +397,11 @@ impl Prop for C15 {
                                     addr,
                                     w.growths - h.growths_at_take,
                                     forced
-                                ),
-                            );
-                            return out;
+                                ));
+                            }
+                            // follow the mapping, so that the byte clause keeps being checked and a later move counts again
+                            h.addr = addr;
+                            h.growths_at_take = w.growths;
                         }
                     }
                     Err(e) => {
@@ -337,6 +410,9 @@ impl Prop for C15 {
                     }
                 }
             }
+        }
+        if let Some(d) = moved {
+            out.fail("C15:mapping-moved-on-growth", d);
         }
         if forced > 0 {
             out.label("move-forced");
